@@ -19,6 +19,9 @@ func runC06(r *Runner, g *Gen, tier string) string {
 	for i := 0; i < n; i++ {
 		cfg := g.pickCfg()
 		t := g.topType(2)
+		if g.r.P(25) {
+			t = g.ifaceShaped() // how the value sits in the interface word matters by value
+		}
 		b := 30
 		var v *Val
 		if g.r.P(25) {
@@ -45,6 +48,36 @@ func runC06(r *Runner, g *Gen, tier string) string {
 	return "generated types and values (25% zero values that encode to nothing; no multi-entry maps), random prefix contents (0..40 bytes), spare capacity 0/1/8/64/4096, by pointer and by value (incl. pointer-shaped structs), repeated calls; compared: the returned bytes = prefix ++ Marshal(nil, v); non-trivial = non-empty prefix"
 }
 
+// ifaceShaped: struct types around the boundary of "stored directly in the
+// interface data word": a single pointer / map field, the same with a zero-size
+// marker field before or after it, nested single-field structs.
+func (g *Gen) ifaceShaped() *TyDef {
+	var inner *TyDef
+	switch g.r.Intn(4) {
+	case 0:
+		inner = Ptr(B(g.r.Pick("int", "str", "uint8")))
+	case 1:
+		inner = Map(B("str"), B("int"))
+	case 2:
+		inner = Ptr(Struct(F("A", "1", B("int")), F("B", "2", B("str"))))
+	default:
+		inner = Struct(F("P", "1", Ptr(B("int"))))
+	}
+	marker := &FieldDef{Name: "_", Exported: false, T: Struct()}
+	field := F("V", "1", inner)
+	switch g.r.Intn(5) {
+	case 0:
+		return Struct(field)
+	case 1:
+		return Struct(marker, field)
+	case 2:
+		return Struct(field, marker)
+	case 3:
+		return Struct(F("W", "2", Struct(field)))
+	}
+	return Struct(field, F("X", "2", B("int")))
+}
+
 // ---- C10 -------------------------------------------------------------------------
 
 func runC10(r *Runner, g *Gen, tier string) string {
@@ -58,13 +91,12 @@ func runC10(r *Runner, g *Gen, tier string) string {
 		b1, b2 := 30, 30
 		prior := g.Value(t, &b1)
 		v := g.Value(t, &b2)
-		res := execOp(codecOp("enc", cfg, t, "", v.Sexp()))
-		if !strings.HasPrefix(res, "ok x") {
+		if knownShape(cfg, t, false) {
 			continue
 		}
 		// a history on one instance: decode into a populated target, then into a fresh one
-		r.Do(codecOp("dec", cfg, t, "", A(res[3:]), prior.Sexp()), true, "dec.prior")
-		r.Do(codecOp("dec", cfg, t, "", A(res[3:]), A("zero")), nontrivialVal(t, v), "dec.fresh-after")
+		r.Do(codecOp("decm", cfg, t, "", v.Sexp(), prior.Sexp()), true, "decm.prior")
+		r.Do(codecOp("decm", cfg, t, "", v.Sexp(), A("zero")), nontrivialVal(t, v), "decm.fresh-after")
 	}
 	return "pairs (prior target contents, encoded value) of one generated type: Unmarshal into a target pre-populated with an unrelated value (longer/shorter slices, populated maps, non-nil pointers), then into a fresh variable through the same instance; compared: the full target value after each call (merge rules) ; the instance is shared by all ops of the run (pools, intern tables, codec caches carry history)"
 }
